@@ -28,11 +28,11 @@ CLAIMS = {
          "Proved: request -> TopicMessage -> ReceivedMessage keeps data bytes and attribute map, message_id is Display of the assigned id, one publish time; MessageId::new is injective on (topic id, counter) (bit-vector proof); topic internal ids are fresh and never reused (delete does not touch next_id); the HTTP push payload region carries base64(data), both id fields, the subscription name and (after fix 79f6033) the attributes.",
          "Trusted: prost / serde_json / base64 encoders, Display of u64 (A-LIB, A-STR: uninterpreted injective functions); Bytes and SystemTime stand-ins; u32 counter wrap (A-ARITH)."),
  "C10": ("proof of the map operations (scoped)",
-         "Proved: State::create_topic / State::create_subscription succeed exactly when the name is absent, then insert exactly that name with a fresh increasing internal id, and leave the state unchanged on ALREADY_EXISTS; the same-project rule is decided before any state access; delegate delete is map.remove; effective ack deadline = max(seconds, 10) for all i32; TopicActor::attach_subscription never fails (the create path registers the name before the attach and has no rollback, so 'a failed create leaves nothing behind' rests on this).",
+         "Proved: State::create_topic / State::create_subscription succeed exactly when the name is absent, then insert exactly that name with a fresh increasing internal id, and leave the state unchanged on ALREADY_EXISTS; the same-project rule is decided before any state access; delegate delete is map.remove; effective ack deadline = max(seconds, 10) for all i32; TopicActor::attach_subscription never fails (the create path registers the name before the attach and has no rollback, so 'a failed create leaves nothing behind' rests on this); read-back (bundle B6): parse_push_config stores the request's endpoint (trimmed), attributes and oidc token, map_to_subscription_resource reports the stored name, topic, whole seconds of the ack deadline and push configuration, and the two compose to the identity (lemma_push_config_roundtrip, lemma_ack_deadline_roundtrip: reported deadline = max(seconds, 10) for every i32).",
          "NOT covered: linearizability across threads (parking_lot::RwLock trusted; that each wrapper holds the guard around exactly one State call is structural), 'later requests observe it' through the actors, NOT_FOUND mapping in the async handlers."),
  "C11": ("proof of the set algebra (scoped)",
          "Proved: topic actor remove_subscription removes exactly the named entry, delete clears the set, sets deleted and is idempotent, attach never overwrites; subscription delete empties backlog and leases and sets deleted, after which post/pull/ack/modify are no-ops.",
-         "NOT covered: order of effects across the two actors, liveness of the Weak<Topic>, the deleted-topic sentinel string (to_string of an upgraded weak reference), re-creation not re-attaching (call-graph fact)."),
+         "NOT covered: order of effects across the two actors, liveness of the Weak<Topic>, that the Weak<Topic> is dead exactly when the topic is deleted (the mapping itself is under contract in B6: live topic -> its name, dead -> the deleted marker), re-creation not re-attaching (call-graph fact)."),
  "C13": ("proof with trusted seams",
          "Proved: Paging::new normalises the size (0 -> 20, > 1000 -> 1000), next offset = offset + page length and none for an empty page, negative size is INVALID_ARGUMENT, an issued token decodes to its offset, anything else is INVALID_ARGUMENT or some offset; walk lemma (unbounded list length): following offsets from the first page yields the list exactly once in order with pages <= size, and a hostile offset yields a valid (possibly empty) page.",
          "Assumed contracts (listed in trusted_base): PageToken::encode/try_decode (base64 + to_ne_bytes; Verus cannot specify const-generic array lengths; a complete Kani harness ran out of memory at 30 GB, so the codec is swept by the bounded stand-in `tokens` on the mounted source file), <[T]>::sort_unstable. The sort + skip/take/collect tails of list_topics and list_subscriptions_in_project are under contract (window == page_items); their filter/collect heads and the window of TopicActor::list_subscriptions use the `cloned` adapter (no vstd spec) and are covered by the bounded stand-ins only; creation order = order of internal ids (C10)."),
@@ -41,7 +41,7 @@ CLAIMS = {
          "NOT covered by contracts: the unary wait loop / 5-minute timer (select!) and the wake-up of further waiting consumers when a full batch leaves messages behind (Notify; gRPC scenarios `pull_limits`, `two_waiters`, `stream_limits` stand in); the `as u16` cast site itself sits inside an async block (the lemma covers its arithmetic)."),
  "C17": ("proof per parser (scoped)",
          "Proved: every parser under contract is total and panic-free (no unwrap, slicing through checked get, all integer arithmetic overflow-checked), returns INVALID_ARGUMENT exactly on the malformed class; streaming control-message validation rejects inconsistent messages before any subscription call.",
-         "NOT covered: 'changes no state / connection survives' at RPC level, panics inside tonic/prost; parse_push_config and parse_project_id are not under contract; AckId::parse is an assumed contract over str::parse::<u64>."),
+         "NOT covered: 'changes no state / connection survives' at RPC level, panics inside tonic/prost; parse_push_config is under contract (B6: INVALID_ARGUMENT exactly when the trimmed endpoint does not start with \"http\"); parse_project_id is not; AckId::parse is an assumed contract over str::parse::<u64>."),
  "C18": ("proof",
          "Proved on the byte view of &str (after fix 0473433), both directions: try_parse(s) = Some(n) implies s = \"projects/\" p \"/topics/\" rest with '/' not in p, p non-empty, n.id = rest trimmed of '/' and non-empty; and every string of that form is accepted (so the canonical echo of an accepted name is accepted); likewise /subscriptions/.",
          "Trusted (A-STR): byte-level contracts of str::starts_with / find / trim_matches, Box<str>: From<&str>, lengths and end bytes of the literal segments, 'an ASCII byte and the position after it are char boundaries' (completeness only); Display and the derived Eq/Hash of the names are not under contract."),
